@@ -63,12 +63,12 @@ func (r *ScriptRunner) Dead() bool {
 	}
 }
 
-func (r *ScriptRunner) Wait(ctx context.Context) error { r.Waits.Add(1); <-r.done; return nil }
-func (r *ScriptRunner) Kill(ctx context.Context) error { r.Kills.Add(1); r.Exit(); return nil }
-func (r *ScriptRunner) Stdout() io.ReadCloser          { return r.outR }
-func (r *ScriptRunner) Stderr() io.ReadCloser          { return r.errR }
-func (r *ScriptRunner) Name() string                   { return "scripted-plugin" }
-func (r *ScriptRunner) ID() string                     { return r.IDStr }
+func (r *ScriptRunner) Wait(ctx context.Context) error  { r.Waits.Add(1); <-r.done; return nil }
+func (r *ScriptRunner) Kill(ctx context.Context) error  { r.Kills.Add(1); r.Exit(); return nil }
+func (r *ScriptRunner) Stdout() io.ReadCloser           { return r.outR }
+func (r *ScriptRunner) Stderr() io.ReadCloser           { return r.errR }
+func (r *ScriptRunner) Name() string                    { return "scripted-plugin" }
+func (r *ScriptRunner) ID() string                      { return r.IDStr }
 func (r *ScriptRunner) Diagnose(context.Context) string { return "" }
 func (r *ScriptRunner) PluginToHost(n, a string) (string, string, error) {
 	return n, a, nil
@@ -88,8 +88,11 @@ type ProcRunner struct {
 	HostPrefix, PluginPrefix string
 
 	Starts, Kills atomic.Int32
-	waitOnce      sync.Once
-	waitErr       error
+	// translation calls go-plugin made (the runner is harness code: counting
+	// them observes go-plugin at its AddrTranslator boundary)
+	P2HCalls, H2PCalls atomic.Int32
+	waitOnce           sync.Once
+	waitErr            error
 }
 
 // NewProcRunner builds the runner from the cmd spec go-plugin hands to
@@ -132,12 +135,14 @@ func (r *ProcRunner) ID() string {
 }
 func (r *ProcRunner) Diagnose(context.Context) string { return "" }
 func (r *ProcRunner) PluginToHost(n, a string) (string, string, error) {
+	r.P2HCalls.Add(1)
 	if n == "unix" && r.PluginPrefix != "" && strings.HasPrefix(a, r.PluginPrefix) {
 		return n, r.HostPrefix + a[len(r.PluginPrefix):], nil
 	}
 	return n, a, nil
 }
 func (r *ProcRunner) HostToPlugin(n, a string) (string, string, error) {
+	r.H2PCalls.Add(1)
 	if n == "unix" && r.HostPrefix != "" && strings.HasPrefix(a, r.HostPrefix) {
 		return n, r.PluginPrefix + a[len(r.HostPrefix):], nil
 	}
